@@ -75,10 +75,18 @@ impl Reorg {
     #[cfg(feature = "verif")]
     crate::verif::points::point("reorg:post-commit", height);
 
-    log::info!(
-      "successfully rolled back database to height {}",
-      index.begin_read()?.block_count()?
-    );
+    let block_count = index.begin_read()?.block_count()?;
+
+    log::info!("successfully rolled back database to height {block_count}");
+
+    // The oldest savepoint may itself be on the abandoned branch. Rolling back
+    // further is impossible, so report the reorg as unrecoverable instead of
+    // retrying the same rollback forever.
+    if let Some(tip) = block_count.checked_sub(1)
+      && index.block_hash(Some(tip))? != index.client.get_block_hash(tip.into()).into_option()?
+    {
+      return Err(anyhow!(reorg::Error::Unrecoverable));
+    }
 
     Ok(())
   }
